@@ -35,7 +35,7 @@ def fname_call(f, nargs):
 def corrupt(rng, expr, pos):
     """Returns (operator, corrupted text) or None if the operator does not apply to expr."""
     ops = ["drop-close", "extra-open", "unterminated-string", "unknown-function", "arity-minus", "arity-plus", "trailing-garbage",
-           "trailing-paren", "empty", "truncate"]
+           "trailing-paren", "empty", "truncate", "unterminated-name-ref", "index-overflow"]
     if pos == "sort":
         ops += ["bad-direction", "bad-direction-eq", "glued-direction"]
     op = rng.choice(ops)
@@ -52,6 +52,11 @@ def corrupt(rng, expr, pos):
         if i < 0:
             return None
         return op, expr[:i] + expr[i + 1:].replace('"', "")
+    if op == "unterminated-name-ref":
+        # /name/ without its closing slash, at the very end of the option value
+        return op, rng.choice(["/c0", "/c", "/sel", "/a b"])
+    if op == "index-overflow":
+        return op, rng.choice([".arr#18446744073709551616", ".a#99999999999999999999999", "#18446744073709551616", "(len .arr#340282366920938463463374607431768211456)"])
     if op == "unknown-function":
         return op, rng.choice(["(nosuchfn .)", "(lenn .arr)", "(Len .arr)", "(map2 .arr .)", "(. .)", "(1 2)", "(..len .arr)", "(...len)", "(..array? .)",
                                "(len. .arr)", "(.len. .arr)", "(l en .arr)", "(len\u00e9 .arr)", "(LEN .arr)", "(-len .arr)", "(_ .)", "(.. .)",
@@ -196,6 +201,9 @@ def gen_unit(rng):
             if op in ("set-duplicate", "set-duplicate-macro"):
                 # the two definitions of one name at random positions among the other --set options (adjacent or not)
                 first, second = ("d=1", "d=2") if op == "set-duplicate" else ("@d=1", "@d=.a")
+                if rng.random() < 0.3:
+                    # the same name written with blanks around it is still the same name
+                    second = rng.choice((" ", "")) + second.replace("=", rng.choice((" =", "  =", " =")), 1)
                 sets = list(parts["sets"]) + ["fill%d=%d" % (i, i) for i in range(rng.choice((0, 0, 1, 2, 3)))]
                 if rng.random() < 0.3:
                     sets.append("@d=.b" if op == "set-duplicate" else "d=7")     # same name in the other namespace: legal
